@@ -143,6 +143,45 @@ def generate(repo):
         # the base class: never ready
         if not re.search(r"virtual\s+bool\s+is_ready_to_divide\s*\(\s*\)\s*const\s+noexcept\s*\{\s*return\s+false\s*;\s*\}", hpp):
             raise Tr("cell::is_ready_to_divide (base class) is not `return false`")
+        # ---- initialize_random_properties: when a value is drawn, and the +-3 sigma cap applied to it
+        from blocktr import parse as bparse, split_statements, as_list
+        from translate_forces import Walker, rx_sub, flat as flat_
+        ib = function_body(cpp, r"void\s+cell::initialize_random_properties\s*\(\s*\)\s*noexcept\s*\{")
+        tops = [x for x in split_statements(ib) if x[0] == "if"]
+        if len(tops) != 2:
+            raise Tr("initialize_random_properties: two if/else statements expected")
+        for node, var, avg, sd, name, extra in ((tops[0], "growth_rate_", "avg_growth_rate_", "std_growth_rate_", "growth_of_gen", ""),
+                                                (tops[1], "division_volume_", "avg_division_vol_", "std_division_vol_", "divvol_of_gen", "(avg_is_inf : bool) ")):
+            sub = rx_sub([(r"cell_type_->" + avg, "avg"), (r"cell_type_->" + sd, "sd"), (r"std::isinf\(avg\)", "avg_is_inf"), (r"distribution\(gen\)", "raw"), (r"\b" + var, "x")])
+            env = {"avg": "d", "sd": "d", "raw": "d", "x": "d", "avg_is_inf": "b"}
+            c_, _ = bparse(sub(sub(node[1])), env, "b")
+            blk = as_list(node[2])
+            heads = [flat_(y[1]) for y in blk[:2] if y[0] == "stmt"]
+            if heads != ["std::minstd_randgen(std::chrono::system_clock::now().time_since_epoch().count())", "std::normal_distribution<double>distribution(cell_type_->%s,cell_type_->%s)" % (avg, sd)]:
+                raise Tr("initialize_random_properties: the draw of %s" % var)
+            w = Walker(env, lambda t: sub(sub(t)), "x")
+            w.declared.add("x")
+            def ren(nd):
+                if nd is None:
+                    return None
+                if nd[0] == "stmt":
+                    return ("stmt", sub(sub(nd[1])))
+                if nd[0] == "block":
+                    return ("block", [ren(y) for y in nd[1]])
+                return ("if", sub(sub(nd[1])), ren(nd[2]), ren(nd[3]))
+            body_ = [ren(y) for y in blk[2:]] + [("stmt", "return x")]
+            g_ = w.walk(body_)
+            el = as_list(node[3])
+            if len(el) != 1 or flat_(el[0][1]) != "%s=cell_type_->%s" % (var, avg):
+                raise Tr("initialize_random_properties: the value of %s when nothing is drawn" % var)
+            defs.append("Definition %s {T} (N : Num T) %s(avg sd raw : T) : T :=\n    if %s then\n  %s\n    else avg." % (name, extra, c_, g_))
+        # ---- the solver's initial target volume
+        scpp = strip_comments(open(os.path.join(repo, "src", "solver.cpp")).read())
+        mm = re.search(r"const\s+double\s+target_volume_\s*=\s*([^;]*);", scpp)
+        if not mm or "c->set_target_volume(target_volume_);" not in flat_(scpp):
+            raise Tr("solver: initial target volume")
+        g_, _ = bparse(rx_sub([(r"c->get_volume\(\)", "V"), (r"cell_type_->initial_pressure_", "p0"), (r"cell_type_->bulk_modulus_", "K")])(mm.group(1)), {"V": "d", "p0": "d", "K": "d"}, "d")
+        defs.append("Definition initial_target_gen {T} (N : Num T) (L : Libm T) (V p0 K : T) : T :=\n    %s." % g_)
     except Exception as e:      # noqa
         err = str(e)
     L = ["(* CellCycle_gen.v — GENERATED by harness/translate_cellcycle.py from /repo's src/mesh/cell.cpp, include/mesh/cell.hpp and",
@@ -154,7 +193,9 @@ def generate(repo):
         L += ["Definition update_target_volume_gen {T} (N : Num T) (dt g minvol vt : T) : T := vt.",
               "Definition update_pressure_gen {T} (N : Num T) (L : Libm T) (K pmax V vt : T) : T := vt.",
               "Definition is_below_gen {T} (N : Num T) (V minvol : T) : bool := false.",
-              "Definition epithelial_is_ready_gen {T} (N : Num T) (V vdiv : T) : bool := false."]
+              "Definition epithelial_is_ready_gen {T} (N : Num T) (V vdiv : T) : bool := false.",
+              "Definition growth_of_gen {T} (N : Num T) (avg sd raw : T) : T := raw.", "Definition divvol_of_gen {T} (N : Num T) (avg_is_inf : bool) (avg sd raw : T) : T := raw.",
+              "Definition initial_target_gen {T} (N : Num T) (L : Libm T) (V p0 K : T) : T := V."]
     else:
         L.append("Definition cellcycle_translation_ok : bool := true.")
         L += defs
